@@ -182,3 +182,11 @@ text("C06",
      "three-party simulation: a scripted delegate sends 1-5 well-formed intent requests (shell and command grants, fields at the framing limits 0/1/255, same or different target), the REAL principal instance runs with a scripted approval callback (approve/deny per request, short and 300-byte reasons) and a hopclient-like target-setup function (verification callback inside connection establishment; failure before it, after it, or a connection that dies at a drawn byte), and the target is the REAL target instance with scripted policy/store results or a scripted one (confirm, deny, wrong message type, garbage, close); streams are fragmented and stalled; oracle over the recorded history: every intent that reaches the target connection equals field for field one the approval callback accepted earlier and whose approval was not already used; the delegate gets exactly one well-framed answer per request (a quiet period after the first answer exposes a second one); a confirmation only if the target accepted and stored that intent",
      TB + "; a target that leaves a message unfinished and stalls keeps the request legitimately in flight and is not simulated (no time bound is stated)",
      "deterministic simulation with fault injection (scripted-counterpart history search, approval-log oracle)", "DESIGN.md 4 C06")
+
+add("C07", "exploration",
+    [{"name": "delegate-session", "quick_s": 35, "thorough_s": 900}],
+    real=APP_REAL + ["portforwarding.StartPFServer (refusal and remote-forward paths)"], stub=APP_STUB + ["an exec request counts as started when thunks.LookupUser is reached from startCodex (the stub recognises the caller by its stack and answers 'no such user', so nothing is ever run); remote port-forward requests name a unix socket in a directory that does not exist"])
+text("C07",
+     "a real HopServer with authorization grants enabled and transport-level admission by the grant key set; 1-5 grants (shell, command with drawn texts, local and remote port-forward; start times in the past, now, in 20 s / 90 s / 1 h; lifetimes 30 s / 5 min / 2 h; two users, two delegate keys) are installed with the real AddAuthGrant, more are added between sessions; scripted delegates connect with a granted or a foreign key, log in, and issue drawn action requests separated by clock jumps of seconds, minutes and hours that straddle start and expiry: exec-tube pairs (granted text, text differing by one byte, prefix, other case, other commands, empty, shell flag on/off, repeats), remote port-forward control requests, authorization-grant tubes carrying a further intent; reference model: multiset of grants moved to the session at login; the set of actions the server STARTED must have an injective assignment to unused grants of that session with matching type, identical command text and start <= t < expiry (maximum matching, so the model is never stricter than necessary); login itself needs an unconsumed grant for exactly (user, key)",
+     TB + "; a shell grant is taken to cover any request with the shell flag (that is what a shell gives)",
+     "deterministic simulation with fault injection (clock jumps + request histories against a grant-multiset reference model)", "DESIGN.md 4 C07")
